@@ -38,11 +38,14 @@ structure D where
   cancelled : List Nat := []
   /-- coroutines some program asks to cancel from inside its body (`K<j>` steps) -/
   targets : List Nat := []
+  /-- `eq` case: several coroutines share a wake-up time, the order among them is unspecified -/
+  sorted : Bool := false
 
 def stepOp (d : D) (o io : String) : D :=
   let abn := (words io).any (fun w => w == "ABORT" || w == "HANG")
   if abn then { d with outs := d.outs ++ ["?"], fails := d.fails ++ [s!"[abort] {o}: {io}"] } else
   match words o with
+  | ["eq"] => { d with sorted := true, outs := d.outs ++ ["-"], labels := "equal-deadlines" :: d.labels }
   | ["sub", prog, prio] =>
     let k := d.s.cos.length
     { d with s := submit d.s (parseSteps prog) (prio.toInt?.getD 0), progs := d.progs ++ [prog], outs := d.outs ++ [s!"id{k}"],
@@ -64,7 +67,7 @@ def stepOp (d : D) (o io : String) : D :=
                   ((d.s.sysSusp.filter (fun e => e.1 > now ∧ d.s.syscall.contains e.2)).map (·.2))
     let (s', po) := pass d.s
     let m := if po.failed then "passerr" else
-      s!"resumed={joinWith "." (po.resumed.map toString)} results={joinWith "," ((po.results.mergeSort (fun a b => a.1 ≤ b.1)).map fun (i, r) => showOutcome i r)}"
+      s!"resumed={joinWith "." ((if d.sorted then po.resumed.mergeSort (fun a b => a ≤ b) else po.resumed).map toString)} results={joinWith "," ((po.results.mergeSort (fun a b => a.1 ≤ b.1)).map fun (i, r) => showOutcome i r)}"
     -- C10 on the implementation's own output
     let field := fun (k : String) => (((words io).find? (fun w => w.startsWith (k ++ "="))).map (fun w => (w.drop (k.length + 1)).toString)).getD ""
     let ires := ((field "resumed").splitOn ".").filterMap String.toNat?
